@@ -168,6 +168,17 @@ GROUPS = {
         nontrivial='histories in which endpoint 1 connects at least twice; all concurrent schedules',
         functions=['Clients::{register, unregister, disconnect, send_packet}', 'Client::{connection_id, start_shutdown, try_send_packet, try_send_peer_gone, try_send_health}'],
     ),
+    # C11: the two negotiation statements, sliced out of their (hyper / websocket) handlers
+    'version_negotiation_bx': dict(
+        unit='version_negotiation.rs', props=['C11'],
+        bounds=dict(quick=['3', '0'], thorough=['5', '0']),
+        space='every Sec-WebSocket-Protocol header that is a comma-separated list of at most {0} tokens from 17 (the two supported names, the same with leading / '
+              'trailing blanks and tabs, unsupported and look-alike names, other case, empty and blank tokens, two names separated by a blank, a name with a '
+              'parameter) — for the relay\'s choice; and every single token (or no header) as the relay\'s answer — for the client\'s check',
+        nontrivial='headers with at least two tokens',
+        functions=['RelayServiceWithNotify::handle_relay_ws_upgrade (the `let protocol_version = ...` statement)', 'ClientBuilder::connect (the `let protocol_version = ...` statement)',
+                   'ProtocolVersion::{ALL, all, all_joined, to_str, match_from_str}'],
+    ),
     # second line behind the Verus unit builder_bind
     'builder_bind_bx': dict(
         unit='builder_bind.rs', props=['C20'],
